@@ -258,6 +258,43 @@ pub fn check_free(c: &FreeCase) -> CheckResult {
     Ok(CaseInfo::new(k >= 2 && m >= 2).class(format!("workers:{}", m)))
 }
 
+/// Seeds that differ in exactly one or two bits, constructed back to back: a generator built
+/// right after a near-identical one must be the generator it is when built after an unrelated
+/// one. (Any process-wide cache keyed on a lossy *linear* digest of the seed collides on some
+/// difference of minimal weight; all 1- and 2-bit differences of one base seed are enumerated.)
+#[derive(Clone, Debug, Serialize, Deserialize)]
+pub struct SeedPairCase {
+    pub ty: Ty,
+    pub base: gens::Seed,
+    pub i: usize,
+    pub j: usize,
+}
+
+pub fn check_seed_pair(c: &SeedPairCase) -> CheckResult {
+    let mut s2 = c.base.bytes.clone();
+    s2[c.i / 8] ^= 1 << (c.i % 8);
+    if c.j != c.i {
+        s2[c.j / 8] ^= 1 << (c.j % 8);
+    }
+    let unrelated: Vec<u8> = c.base.bytes.iter().map(|b| !b ^ 0x5a).collect();
+    let take = |g: &mut dyn Gen| -> [u64; 3] { [g.next_native(), g.next_native(), g.next_native()] };
+    // references: each seed's generator built right after an unrelated one
+    let _u = crate::adapter::from_seed(c.ty, &unrelated);
+    let want_a = take(&mut *crate::adapter::from_seed(c.ty, &c.base.bytes));
+    let _u2 = crate::adapter::from_seed(c.ty, &unrelated);
+    let want_b = take(&mut *crate::adapter::from_seed(c.ty, &s2));
+    // back to back in both orders: a after (the reference instance of) b, b after a, a after b
+    let got_a1 = take(&mut *crate::adapter::from_seed(c.ty, &c.base.bytes));
+    let got_b = take(&mut *crate::adapter::from_seed(c.ty, &s2));
+    let got_a2 = take(&mut *crate::adapter::from_seed(c.ty, &c.base.bytes));
+    for (what, want, got) in [("the base seed, built after the near-identical one", want_a, got_a1), ("the near-identical seed, built after the base one", want_b, got_b), ("the base seed, built again", want_a, got_a2)] {
+        if got != want {
+            return Err(Fail::new(format!("C19:depends-on-previous-instance:{}", c.ty.name()), format!("two seeds differing only in bit(s) {} / {}: the generator of {} returns other values than when built after an unrelated generator", c.i, c.j, what)).exp_act(format!("{:x?}", want), format!("{:x?}", got)));
+        }
+    }
+    Ok(CaseInfo::new(c.i != c.j).class(if c.i == c.j { "1-bit" } else { "2-bit" }))
+}
+
 /// static part: compile the Send/Sync probe against the current tree
 pub struct StaticProbe;
 
@@ -404,6 +441,35 @@ pub fn def(ctx: &Ctx) -> PropDef {
                 check_scenario,
             ));
         }
+        for ty in Ty::ALL {
+            let nbits = ty.info().seed_len * 8;
+            let seed = ctx.seed;
+            subs.push(crate::engine::ESub::boxed(
+                format!("seed-pairs/{}", ty.name()),
+                (nbits * nbits) as u64,
+                move || {
+                    // one base seed per run (from VERIF_SEED), all 1- and 2-bit differences
+                    let mut z = crate::engine::mix_seed(seed, &format!("C19/seed-pairs/{}", ty.name())) | 1;
+                    let bytes: Vec<u8> = (0..nbits / 8)
+                        .map(|_| {
+                            z ^= z << 13;
+                            z ^= z >> 7;
+                            z ^= z << 17;
+                            (z >> 24) as u8
+                        })
+                        .collect();
+                    let base = gens::Seed { class: "base".into(), bytes };
+                    let mut v = Vec::with_capacity(nbits * (nbits + 1) / 2);
+                    for i in 0..nbits {
+                        for j in i..nbits {
+                            v.push(SeedPairCase { ty, base: base.clone(), i, j });
+                        }
+                    }
+                    v
+                },
+                check_seed_pair,
+            ));
+        }
         for part in 0..t.pick(1, 4) {
             subs.push(PSub::boxed(
                 format!("fresh-process/{}", part),
@@ -423,7 +489,7 @@ pub fn def(ctx: &Ctx) -> PropDef {
     }
     PropDef {
         id: "C19",
-        rule: "scenario = up to 6 generator instances (types drawn from the 19 deterministic types + scripted JitterRng, with deliberate repeats: identical twins, same seed with another history, same type with another seed; zero seeds; construction is part of the history and happens on the scheduled thread) + a generated schedule of (instance, worker thread) pairs over 1..4 real OS threads: a coordinator hands the boxed generator and one operation to the scheduled worker and gets both back, so exactly one operation runs at a time and the interleaving, including migrations between threads, is the generated one. Oracle: every instance's trace equals its solo replay in a fresh thread, executed both before and after the interleaved run. Free-running mode: instances partitioned over 2..8 unsynchronised threads, repeated. Fresh-process mode: the traces of instances created and advanced round-robin inside the long-lived checker process (where thousands of other generators were created before) must equal the traces each instance produces alone in a freshly spawned child process, so process-wide lazily initialised state cannot hide. Static part: a probe crate asserting Send + Sync for every type is compiled against the current tree. Non-trivial = >= 2 instances of the same type advanced alternately and >= 1 thread migration; distinct by hash of the scenario.".into(),
+        rule: "scenario = up to 6 generator instances (types drawn from the 19 deterministic types + scripted JitterRng, with deliberate repeats: identical twins, same seed with another history, same type with another seed; zero seeds; construction is part of the history and happens on the scheduled thread) + a generated schedule of (instance, worker thread) pairs over 1..4 real OS threads: a coordinator hands the boxed generator and one operation to the scheduled worker and gets both back, so exactly one operation runs at a time and the interleaving, including migrations between threads, is the generated one. Oracle: every instance's trace equals its solo replay in a fresh thread, executed both before and after the interleaved run. Free-running mode: instances partitioned over 2..8 unsynchronised threads, repeated. Fresh-process mode: the traces of instances created and advanced round-robin inside the long-lived checker process (where thousands of other generators were created before) must equal the traces each instance produces alone in a freshly spawned child process, so process-wide lazily initialised state cannot hide. Seed-pair enumeration: for one base seed per type and run, every seed that differs from it in exactly one or two bits (32 896 pairs for 32-byte seeds) is constructed right after the base seed\u{2019}s generator and must equal the same generator constructed after an unrelated one. Static part: a probe crate asserting Send + Sync for every type is compiled against the current tree. Non-trivial = >= 2 instances of the same type advanced alternately and >= 1 thread migration; distinct by hash of the scenario.".into(),
         explanation: None,
         assumptions: vec![
             "interleavings inside one operation are not enumerated (the crates contain no synchronisation primitives to instrument)".into(),
